@@ -530,6 +530,26 @@ def gen_cases():
                 for launder in (True, False):
                     for op in ops:
                         cs += param_cases(D, T, v, launder, op)
+    # signed zeros, equal values and NaNs through every typed float comparison and the guarded forms; the operands come
+    # through calls / untyped code, so nothing is constant-folded
+    FZ = [("0.0", "(0.0 - 0.0)"), ("(0.0 * -1.0)", "0.0"), ("0.0", "(0.0 * -1.0)"), ("(0.0 * -1.0)", "(0.0 * -1.0)"),
+          ("(0.0 / 0.0)", "(0.0 / 0.0)"), ("(0.0 / 0.0)", "1.5"), ("1.5", "1.5"), ("(1.0 / 0.0)", "(1.0 / 0.0)")]
+    for op in CMP:
+        refb = f"fn g(a, b) {{ let r = a {op} b\n return r }}\n"
+        for a, b in FZ:
+            if op in ("==", "!=") and a == b == "(0.0 / 0.0)":
+                continue        # one and the same NaN: generic == says true (Value::eq raw-bits shortcut), IEEE false;
+                                # both operands are floats, no value is misread (theorem eq_on_nan_differs) -- not a C06 matter
+            cs.append(mk("float-compare", "float", "float", f"FF:{a}{op}{b}",
+                         f"fn f(x: float, y: float) {{ let r = x {op} y\n return r }}\nlet r = f(dyn({a}), dyn({b}))\n",
+                         refb + f"let r = g(dyn({a}), dyn({b}))\n"))
+            cs.append(mk("float-compare", "int*float", "float", f"FFG:{a}{op}{b}",
+                         f"fn f(x: int, y: float) {{ let r = x {op} y\n return r }}\nlet r = f(dyn({a}), dyn({b}))\n",
+                         refb + f"let r = g(dyn({a}), dyn({b}))\n"))
+        for a, b in (("0", "(0.0 * -1.0)"), ("2", "2.0")):
+            cs.append(mk("float-compare", "int*float", "int*float", f"FFG:{a}{op}{b}",
+                         f"fn f(x: int, y: float) {{ let r = x {op} y\n return r }}\nlet r = f(dyn({a}), dyn({b}))\n",
+                         refb + f"let r = g(dyn({a}), dyn({b}))\n"))
     # mixed int/float operands: the backend emits the guarded ...FFG opcodes
     for op in ARITH + CMP:
         refb = f"fn g(a, b) {{ let r = a {op} b\n return r }}\n"
@@ -797,6 +817,8 @@ def classify(case, o, r):
         same = case["T"] == "int"
     if case["position"] in ("literal-element", "typed-foreach"):
         same = False
+    if case["position"] == "float-compare":
+        same = True
     pos = case["position"]
     if ocl == "panic" or om > 0:
         how = "panic: " + odet[:60] if ocl == "panic" else f"{om} unchecked-accessor reads of a wrong-kind value (result {oout[:40]!r})"
